@@ -33,13 +33,13 @@ def main():
         if fn is None and spec["q"] in ("asm_roundtrip",):
             from mirsym import queries_asm as QA
             fn = getattr(QA, "q_" + spec["q"])
-        if fn is None and spec["q"] in ("script_parse",):
+        if fn is None and spec["q"] in ("script_parse", "script_enum"):
             from mirsym import queries_script as QSC
             fn = getattr(QSC, "q_" + spec["q"])
         if fn is None and spec["q"] in ("checksig", "interp_tx_total"):
             from mirsym import queries_checksig as QCS
             fn = getattr(QCS, "q_" + spec["q"])
-        if fn is None and spec["q"] in ("ecdsa_glue",):
+        if fn is None and spec["q"] in ("ecdsa_glue", "recover_glue"):
             from mirsym import queries_sign as QSG
             fn = getattr(QSG, "q_" + spec["q"])
         if fn is None and spec["q"] in ("bip32", "bip32_path"):
